@@ -681,7 +681,9 @@ Proof. exact slot_heap_bump. Qed.
 Print Assumptions C02_tr_bufs_modified_state.
 
 (* autowrite on (xaw != 0), a buffer reported modified: with a non-empty path the buffer is handed to lbuf_save(b->lb, 0, -1, b->path, 0,
-   b->mtime) -- the oracle -- and bufs_modified answers whether that returned an error message; with the path "" as with autowrite off *)
+   b->mtime) -- the oracle.  A message: bufs_modified answers 1, nothing is stored.  NULL (since fix 37c81b2): lbuf_saved(b->lb, 0) -- the
+   translated function, on the memory the save left --, then mtime(b->path) -- an oracle -- is stored into b->mtime (the slot's last cell; the
+   rest of the table stays) and bufs_modified answers 0.  With the path "" as with autowrite off *)
 Theorem C02_tr_bufs_modified_autowrite : forall ext m t i bl blk (lb : lbuf) msg a pb p m2 d fuel, tab_at m t -> tab_ok t -> (i < 16)%nat ->
   cs_lb (nths t i) = VPtr bl 0 -> lbuf_rep m bl blk lb -> lbuf_ints lb -> useq lb < 2147483647 ->
   snd (lbuf_modified lb) = true -> bl <> G_xaw -> bl <> G_bufs -> cell_at m G_xaw a -> int_ok a -> a <> 0 -> ptr_val msg ->
@@ -692,7 +694,13 @@ Theorem C02_tr_bufs_modified_autowrite : forall ext m t i bl blk (lb : lbuf) msg
           callx ext cprog fuel (S (S (S d))) F_bufs_modified [VInt (Z.of_nat i); msg] m = Ok (VInt 1, m2)
   | _ :: _ => forall r, ptr_val r ->
           ext X_lbuf_save [VPtr bl 0; VInt 0; VInt (-1); VPtr pb 0; VInt 0; VInt (wrap I64 (cs_mtime (nths t i)))] m1 = Ok (r, m2) ->
-          callx ext cprog fuel (S (S (S d))) F_bufs_modified [VInt (Z.of_nat i); msg] m = Ok (VInt (b2z (negb (is_null r))), m2)
+          if is_null r
+          then forall u3 m3 ts m4, tab_at m2 t ->
+                 callx ext cprog fuel (S (S d)) F_lbuf_saved [VPtr bl 0; VInt 0] m2 = Ok (u3, m3) -> tab_at m3 t ->
+                 ext X_mtime [VPtr pb 0] m3 = Ok (VInt ts, m4) -> tab_at m4 t ->
+                 callx ext cprog fuel (S (S (S d))) F_bufs_modified [VInt (Z.of_nat i); msg] m
+                 = Ok (VInt 0, upd m4 G_bufs (tab_cells (upd t i (set_cs_mtime (nths t i) (wrap I64 ts)))))
+          else callx ext cprog fuel (S (S (S d))) F_bufs_modified [VInt (Z.of_nat i); msg] m = Ok (VInt 1, m2)
   end.
 Proof. exact tr_bufs_modified_aw. Qed.
 Print Assumptions C02_tr_bufs_modified_autowrite.
